@@ -115,9 +115,13 @@ class ApiGen:
             if exp is not None:
                 import re
                 got = sorted(int(re.search(r'len=(\d+)', e).group(1)) for e in o.events if e.startswith('E zero') and ' stack ' in e)
-                if got != sorted(exp):
-                    self.report('C16', 'wipe-sizes:' + o.head.split()[0], '"%s" wiped stack temporaries of sizes %s through the injected wipe, expected the full sizes %s' % (o.head[:120], got, sorted(exp)))
+                # judged by the total (a refactoring may split or merge temporaries): fewer bytes wiped than the temporaries hold
+                if sum(got) < sum(exp):
+                    self.report('C16', 'wipe-sizes:' + o.head.split()[0], '"%s" wiped %d bytes of stack temporaries through the injected wipe (sizes %s); its temporaries hold %d bytes (sizes %s)' % (o.head[:120], sum(got), got, sum(exp), sorted(exp)))
         if o is not None:
+            for e in o.events:
+                if e.startswith('E free') and e.endswith('zeroed=0'):
+                    self.report('C16', 'free-unwiped:' + o.head.split()[0], 'during "%s" a block was handed to the injected free without having been wiped: %s' % (o.head[:100], e))
             self.count(o.head.split()[0] + ('/st=' + o.kv('st') if o.kv('st') is not None else ''))
             for c in o.complaints:
                 # direct observations of the harness on the real code
@@ -551,6 +555,17 @@ class ApiGen:
         toks = self.tokens(li, p)
         v = self.variant_tokens(li, toks)
         form = r.choice([None, 'nfc', 'nfd'])
+        if self.L.langs[li]['accents'] and r.random() < 0.4:
+            # the accent-insensitive matcher ignores every non-ASCII byte: explicit and automatic decoding must still agree
+            j = r.randrange(16)
+            stray = r.choice(['\ufeff', '\u65e5', '\u00b7', '\u200b']).encode()
+            pos = r.choice([0, len(v[j]) // 2, len(v[j])])
+            try:
+                v[j][:pos].decode('utf-8')
+                v[j] = v[j][:pos] + stray + v[j][pos:]
+                form = None
+            except UnicodeDecodeError:
+                pass
         s = self.render(li, v, form=form, sep=r.choice([None, None, b' ']))
         if r.random() < 0.3:
             s += b' '
